@@ -214,7 +214,8 @@ func (m *Manager) submitDataToDA(ctx context.Context, signedDataToSubmit []*type
 			}
 			lastSubmittedDataHeight := uint64(0)
 			if l := len(submitted); l > 0 {
-				lastSubmittedDataHeight = submitted[l-1].Height()
+				// empty blocks directly above the last accepted data have nothing to submit
+				lastSubmittedDataHeight = m.pendingData.skipEmpty(ctx, submitted[l-1].Height())
 			}
 			m.pendingData.setLastSubmittedDataHeight(ctx, lastSubmittedDataHeight)
 			// Update sequencer metrics if the sequencer supports it
@@ -249,6 +250,17 @@ func (m *Manager) createSignedDataToSubmit(ctx context.Context) ([]*types.Signed
 	}
 
 	signedDataToSubmit := make([]*types.SignedData, 0, len(dataList))
+
+	// Nothing is ever published for a block without transactions. Empty blocks at the head
+	// of the pending list (nothing unsubmitted below them) are therefore done: move the
+	// watermark past them, otherwise they count as pending forever and, with a pending
+	// limit configured, an idle chain stops producing blocks for good.
+	for _, data := range dataList {
+		if len(data.Txs) != 0 || data.Metadata == nil {
+			break
+		}
+		m.pendingData.setLastSubmittedDataHeight(ctx, data.Height())
+	}
 
 	for _, data := range dataList {
 		if len(data.Txs) == 0 {
